@@ -146,7 +146,12 @@ LIMIT_RULES = [
 LIMIT_RULES += ["FREQ=%s;%s=%d%s" % (f, k, v, x) for f in ("YEARLY", "MONTHLY", "WEEKLY", "DAILY", "HOURLY", "MINUTELY", "SECONDLY")
                 for k in ("INTERVAL", "COUNT") for v in (1 << 32, (1 << 32) + 1, 1 << 33, (1 << 63) - 1, 1 << 63, 1 << 64, 10 ** 20)
                 for x in ("", ";BYDAY=MO")]
-LIMIT_DTSTARTS = ["16000101", "19010101", "19010101T000000Z", "20991231T235959Z", "20991231", "99991231T235959Z", "00010101",
+# rules on the table-based Hijri scales, whose tables end in 2022 (Diyanet) and 2077 (Umm al-Qura): streams that run
+# into the end of the table, or start beyond it
+LIMIT_RULES += ["FREQ=%s;SCALE=%s%s" % (f, sc, x) for f in ("YEARLY", "MONTHLY", "WEEKLY", "DAILY", "HOURLY")
+                for sc in ("HIJRI", "HIJRI.DIYANET", "HIJRI.IA")
+                for x in ("", ";BYDAY=MO,TH,SU", ";BYDAY=FR,SA,SU;BYSETPOS=1,-1", ";BYMONTHDAY=30,-1;BYSETPOS=-1", ";BYMONTH=12;BYDAY=WE,SU;BYSETPOS=2")]
+LIMIT_DTSTARTS = ["20221101T090000Z", "20221220", "20770901T120000Z", "20771110", "16000101", "19010101", "19010101T000000Z", "20991231T235959Z", "20991231", "99991231T235959Z", "00010101",
                   "20000229T120000Z", "20000230", "20001301", "20000100", "19700101T000000Z", "21000228", "40950101", "65535"]
 
 
